@@ -17,6 +17,8 @@ import (
 
 type r3pStruct map[string]any
 
+type r3pOpaque struct{}
+
 type r3pEvalErr struct{ msg string }
 
 type r3pEval struct {
@@ -62,11 +64,20 @@ func (ev *r3pEval) call(fn *types.Func, args []any) []any {
 	if d == nil || d.Fd.Body == nil {
 		ev.fail("call of %s: no body in the module", fn.FullName())
 	}
-	if d.Fd.Recv != nil {
-		ev.fail("call of method %s", fn.FullName())
-	}
 	fr := &r3pFrame{info: d.Pkg.TypesInfo, vars: map[types.Object]any{}}
 	sg := fn.Type().(*types.Signature)
+	if d.Fd.Recv != nil {
+		// a method: the first argument is the receiver
+		if len(args) == 0 {
+			ev.fail("method %s without receiver", fn.FullName())
+		}
+		if len(d.Fd.Recv.List) > 0 && len(d.Fd.Recv.List[0].Names) > 0 {
+			if o := d.Pkg.TypesInfo.Defs[d.Fd.Recv.List[0].Names[0]]; o != nil {
+				fr.vars[o] = args[0]
+			}
+		}
+		args = args[1:]
+	}
 	n := sg.Params().Len()
 	if sg.Variadic() {
 		if len(args) < n-1 {
@@ -341,8 +352,7 @@ func (ev *r3pEval) zero(t types.Type) any {
 		}
 		return s
 	}
-	ev.fail("zero value of %s", t)
-	return nil
+	return r3pOpaque{} // a value the evaluation may carry around but not look into
 }
 
 func (ev *r3pEval) fromConst(v constant.Value) any {
@@ -556,6 +566,14 @@ func (ev *r3pEval) expr(fr *r3pFrame, x ast.Expr) any {
 			ev.fail("call of %s", exprStr(y.Fun))
 		}
 		var args []any
+		if se, ok := ast.Unparen(y.Fun).(*ast.SelectorExpr); ok {
+			if sel := info.Selections[se]; sel != nil && sel.Kind() == types.MethodVal {
+				if _, isIfc := types.Unalias(sel.Recv()).Underlying().(*types.Interface); isIfc {
+					ev.fail("dynamic method call %s", exprStr(y.Fun))
+				}
+				args = append(args, ev.expr(fr, se.X))
+			}
+		}
 		for _, a := range y.Args {
 			args = append(args, ev.expr(fr, a))
 		}
